@@ -119,6 +119,9 @@ FAULT_TYPES = {
     "InjectedBase": InjectedBase,
     "RuntimeError": RuntimeError,
     "AttributeError": AttributeError,
+    "KeyError": KeyError,
+    "IndexError": IndexError,
+    "AssertionError": AssertionError,
 }
 
 
